@@ -228,3 +228,30 @@ def shaped(rng):
     for _ in range(rng.randint(1, 3)):
         forms.append(shaped_expr(rng, 3))
     return tame(" ".join(forms))
+
+
+M_PATTERNS = ["(%s a)", "(%s a b ...)", "(%s (a b) ...)", "(%s a lit b)", "(%s)", "(%s #(a ...))", "(%s a . b)", "(%s _ a)", "(%s a (b c ...) ...)", "(%s 1 a)"]
+M_TEMPLATES = ["(define a 1)", "(define-syntax a (syntax-rules () ((a) 1)))", "(define-syntax a (syntax-rules () ((a x) (%s x))))", "(begin a b ...)", "(lambda (a) b ...)",
+               "((lambda () (define a 1) a))", "(let ((a b) ...) a ...)", "(%s a)", "(%s a a)", "(set! a b)", "(quote (a b ...))", "(cond (a b) ...)", "(if a b ...)", "(a b ...)",
+               "(%s2 a)", "a", "(a ... ...)", "(define (a . b) b)", "(define-syntax %s (syntax-rules () ((%s x) x)))", "(let* ((a 1) (b a)) (%s b))", "(define-library (a) (export b))",
+               "(import (a))", "(define-syntax a b)", "(begin (define-syntax a (syntax-rules () ((a) 'inner))) (a))", "(lambda () (define-syntax a (syntax-rules () ((a) 2))) (a))",
+               "(b ... a)", "#(a b ...)", "(quote a)", "(vector a b ...)", "(case a ((b ...) 1) (else 2))", "(and a b ...)", "(when a b ...)", "(define a (lambda a a))"]
+M_USES = ["(%s x)", "(%s foo 1 2)", "(%s (p q) (r s))", "(%s)", "(%s #(1 2))", "(%s foo)", "(foo)", "foo", "(x)", "(%s (%s foo))", "(%s lit lit lit)", "(%s foo lit 3)", "(%s 1 foo)",
+          "(%s foo . bar)", "(%s (a b c) (d))", "(define z (%s foo))", "((lambda () (%s foo)))", "(%s2 foo)", "(%s %s)", "(%s 'foo)"]
+
+
+def macro_soup(rng):
+    """macro definitions whose templates are code (definitions, syntax definitions, binding forms, recursive uses) and uses of them"""
+    name = rng.choice(["mm", "def-macro", "my-let", "loop", "m1"])
+    forms = []
+    for k in range(rng.randint(1, 2)):
+        nm = name if k == 0 else name + "2"
+        rules = []
+        for _ in range(rng.randint(1, 3)):
+            p = rng.choice(M_PATTERNS) % nm
+            t = rng.choice(M_TEMPLATES).replace("%s2", name + "2").replace("%s", name)
+            rules.append("(%s %s)" % (p, t))
+        forms.append("(define-syntax %s (syntax-rules (lit) %s))" % (nm, " ".join(rules)))
+    for _ in range(rng.randint(1, 5)):
+        forms.append(rng.choice(M_USES).replace("%s2", name + "2").replace("%s", name))
+    return tame(" ".join(forms))
